@@ -23,10 +23,14 @@ from .tlcrun import OUT
 
 
 def _traces_and_behaviours() -> Tuple[List[List[Dict[str, Any]]], List[Dict[str, Any]]]:
-    cfg = configs.make_cfg("selftest_cover.cfg", "U2", 1, False, families="Fam_All", ops="All", init="U2_ExInit",
-                           scripts="U2_ScriptsReg", focus="F_Measure", cover=True)
-    rc, out = tlcrun.tlc("MC", cfg, ["-workers", "8"], timeout=1200)
-    beh = tlcrun.parse_traces(out)[:40]
+    from .check import stratified
+
+    beh = []
+    for k, scripts in enumerate(("U2_ScriptsReg", "U2_ScriptsQ")):
+        cfg = configs.make_cfg(f"selftest_cover{k}.cfg", "U2", 1, False, families="Fam_All", ops="All", init="U2_ExInit",
+                               scripts=scripts, focus="F_Measure", cover=True)
+        rc, out = tlcrun.tlc("MC", cfg, ["-workers", "8"], timeout=1200)
+        beh += stratified(tlcrun.parse_traces(out), 40, 1 + k)
     d = os.path.join(OUT, "selftest_traces")
     shutil.rmtree(d, ignore_errors=True)
     os.makedirs(d)
